@@ -1252,7 +1252,20 @@ func (env *SpecEnv) evalCall(x *SExpr) *Val {
 			return mathInt(v.term())
 		case "strlen":
 			v := env.eval(args[0])
-			return mathInt(fmt.Sprintf("(strlen %s)", v.term()))
+			sl := fmt.Sprintf("(strlen %s)", v.term())
+			if env.facts != nil {
+				*env.facts = append(*env.facts, fmt.Sprintf("(<= 0 %s)", sl))
+			}
+			return mathInt(sl)
+		case "sprintf":
+			// sprintf("format", a, b, ...): the string fmt.Sprintf yields for these scalar arguments
+			var ts []string
+			for _, a := range args {
+				ts = append(ts, env.eval(a).term())
+			}
+			name := fmt.Sprintf("sprintf%d", len(ts)-1)
+			e.w.declareUF(e.s, name, len(ts), "Int")
+			return intVal(types.Typ[types.String], app(name, ts...))
 		case "uf":
 			// uf("name", args...) : uninterpreted Int function (declared on demand)
 			name := args[0].Name
